@@ -85,7 +85,10 @@ def c14_run(ctx):
     if ctx.thorough:
         ns = [(n, n % 2) for n in range(1, 256)] + [(255, 0), (254, 1), (2, 0), (1, 1)]
     else:
-        ns = [(n, n % 2) for n in list(range(1, 11)) + [15, 16, 17, 31, 32, 33]] + [(2, 0), (3, 1)]
+        ns = [(n, n % 2) for n in list(range(1, 11)) + [15, 16, 17, 31, 32, 33, 129]] + [(2, 0), (3, 1)]
+        if ctx.broken:
+            # a proof obligation / translated definition no longer checks: widen the search for a concrete failing input
+            ns += [(64, 0), (128, 1), (200, 1), (255, 0)]
     ns = sorted(set(ns))
     with ThreadPoolExecutor(max_workers=C.NCPU) as ex:
         results = list(ex.map(lambda a: (a, S.run_dispatch(*a)), ns))
